@@ -184,7 +184,7 @@ class Reproducible(Harness):
 def harnesses(tier):
     hs = [Window(2), Joint(2, 2), Reproducible()]
     if tier == "thorough":
-        hs += [Window(3), Joint(2, 3), Joint(3, 2)]
+        hs += [Window(3), Window(4), Joint(2, 3), Joint(3, 2), Joint(3, 3)]
     hs += [Window(1, wrong="narrow"), Joint(1, 2, wrong="shift"), Reproducible(wrong="seed")]
     return hs
 
